@@ -271,3 +271,22 @@ Proof.
   intros. unfold perform_substitutions. rewrite perform_substs_pieces by assumption.
   destruct (pieces get t 0 ss); reflexivity.
 Qed.
+
+(* ---------- material for the non-vacuity examples of Props/C17.v ---------- *)
+From Coq Require Import String Ascii.
+Fixpoint t_of (s : string) : text :=
+  match s with EmptyString => [] | String c r => N_of_ascii c :: t_of r end.
+
+(* a toy one-line resolver: `n` is one zero byte; `j` is one byte holding the value of the block label `l`
+   (no encoding while `l` is unknown) *)
+Definition toy_resolve (line : text) (pos : Z) (ls : labels) (can_guess : bool) : eres (option bigint) :=
+  if text_eqb line (t_of "n") then EOk (Some (mk 0 (Some 8%N)))
+  else if text_eqb line (t_of "j") then
+    match lookup ls (t_of "l") with
+    | Some (VInt b) => EOk (Some (mk (bv b) (Some 8%N)))
+    | Some VUnknown => EOk None
+    | _ => EErr
+    end
+  else EErr.
+Definition toy_address (pos : Z) (can_guess : bool) : eres Z := EOk (pos / 8).
+Definition toy_block : list rawnode := [RInstr (t_of "j"); RInstr (t_of "n"); RSymbol (t_of "l") true 0%N; RInstr (t_of "j")].
